@@ -10,7 +10,7 @@ D=${1:-/tmp/mx}
 mkdir -p $D
 [ -d $D/repo ] || git -C /repo worktree add --detach $D/repo HEAD >/dev/null 2>&1
 git -C $D/repo checkout -q --detach $(git -C /repo rev-parse HEAD)
-rsync -a --delete --exclude harness/target --exclude harness/fuzz/target --exclude .work --exclude .git /verif/ $D/verif/
+rsync -a --delete --exclude harness/target --exclude harness/target-pod --exclude harness/fuzz/target --exclude .work --exclude .git /verif/ $D/verif/
 mkdir -p $D/verif/.work
 sed -i "s|path = \"/repo\"|path = \"$D/repo\"|" $D/verif/harness/Cargo.toml
 sed -i "s|\"/repo/Cargo.toml\"|\"$D/repo/Cargo.toml\"|" $D/verif/check
